@@ -56,13 +56,15 @@ PROPS = {
         level='proof',
         technique='Verus data-structure invariant + trait-level contract on every into_portable impl; retain closure/cardinality contract; Kani bounded stand-ins for 3 closure functions',
         level_text='Registry::inv (every stored definition is filed under an in-range id and all ids it mentions are in range) and the pay-back clause (a call leaves a definition for exactly the ids it interned) are proved for register_type / intern_type_id and inherited by all 14 IntoPortable impls with MetaType::type_info() unconstrained, so density and closure hold after every top-level call for every type with type info (lemma_dense_step, lemma_dense_closed); resolve returns exactly the entry at the position; the builder is proved a duplicate-free list; retain is proved to keep all ids in range of a registry of matching cardinality.',
-        level_note='Assumed contracts: BTreeMap entry API, lawful Ord/Clone of key types, mem::replace. Left external in Verus with assumed contracts (bounded Kani stand-ins, not counted): Registry::register_types, map_into_portable, TypeParameter::into_portable (closures capturing &mut), From<Registry> for PortableRegistry and PortableRegistryBuilder::finish (tuple-pattern closure / enumerate). Not covered: registries obtained by decoding (decoder out of reach). Partial correctness for registration. All id guarantees up to 2^32 entries.',
+        level_note='Assumed contracts: BTreeMap entry API, lawful Ord/Clone of key types, mem::replace. Left external in Verus with assumed contracts (bounded stand-ins, not counted): Registry::register_types, map_into_portable, TypeParameter::into_portable (closures capturing &mut) and PortableRegistryBuilder::new / finish (derived Default, enumerate). From<Registry> for PortableRegistry IS verified (as an identical-text inherent twin, tuple-pattern closure rewritten to a let, rule R8) under the assumption that BTreeMap iterates in ascending key order. Not covered: registries obtained by decoding (decoder out of reach). Partial correctness for registration. All id guarantees up to 2^32 entries.',
         verus=[('interner', INTERNER_ITEMS), ('registry', REGISTRY_ITEMS + ['tmpl::lemma_dense_*', 'tmpl::lemma_img_closed', 'tmpl::lemma_*_mono']),
-               ('registry_impls', IMPL_ITEMS), ('portable', ['PortableRegistry::resolve', 'PortableRegistryBuilder::*', 'PortableType::new']),
+               ('registry_impls', IMPL_ITEMS),
+               ('portable', ['PortableRegistry::resolve', 'PortableRegistryBuilder::*', 'PortableType::new', 'Registry::types',
+                             'From<Registry> for PortableRegistry::from', 'tmpl::lemma_from_registry_dense', 'tmpl::lemma_sorted_*']),
                ('retain', ['PortableRegistry::retain', 'tmpl::lemma_*'])],
-        kani_quick=['builder_new_is_empty', 'builder_finish_lists_values', 'map_into_portable_in_order'],
-        kani_thorough=['builder_new_is_empty', 'builder_finish_lists_values', 'map_into_portable_in_order'],
-        assumptions=['A1', 'A3', 'A4', 'A5', 'A6', 'A7', 'A9', 'PARTIAL', 'MODULAR', 'VSTD', 'TOOLS'],
+        kani_quick=['builder_new_is_empty', 'map_into_portable_in_order'],
+        kani_thorough=['builder_new_is_empty', 'map_into_portable_in_order', 'builder_finish_lists_values'],
+        assumptions=['A1', 'A2', 'A3', 'A4', 'A5', 'A6', 'A7', 'A9', 'PARTIAL', 'MODULAR', 'VSTD', 'TOOLS'],
     ),
     'C02': dict(
         title='Portable form is a faithful image of the compile-time definition',
@@ -114,7 +116,7 @@ PROPS = {
         level_text='Every Interner and builder operation is proved, for all element types, values and prior states satisfying the representation invariant, to behave exactly like the duplicate-free list that is its abstract view (new value -> appended and the next free index, equal value -> its first index and nothing changes, get/resolve -> stored value or None); each operation requires only the invariant and re-establishes it, so the statement holds for every finite history (lemma_builder_history over operation scripts).',
         level_note='PortableRegistryBuilder::new (derived Default) and finish (enumerate + tuple-pattern closure) are left external with assumed contracts; Kani stand-ins: builder_new_is_empty (complete, no inputs) and builder_finish_lists_values (bounded, <= 3 registrations). Assumed: BTreeMap entry API contract, lawful Ord/Clone of Type<PortableForm>. Ids guaranteed up to 2^32 entries.',
         verus=[('interner', INTERNER_ITEMS), ('portable', ['PortableRegistryBuilder::*', 'tmpl::lemma_builder_history'])],
-        kani_quick=['builder_new_is_empty', 'builder_finish_lists_values'], kani_thorough=['builder_new_is_empty', 'builder_finish_lists_values'],
+        kani_quick=['builder_new_is_empty'], kani_thorough=['builder_new_is_empty', 'builder_finish_lists_values'],
         assumptions=['A1', 'A5', 'A7', 'VSTD', 'TOOLS'],
     ),
     'C14': dict(
@@ -143,9 +145,9 @@ PROPS = {
         level='proof',
         technique='Verus full functional postconditions on every builder function of src/build.rs and the src/ty constructors, verified twice (docs feature on / off)',
         level_text='Every builder step is proved to produce exactly the supplied component and leave all others unchanged (FieldBuilder, VariantBuilder, Variants, FieldsBuilder, TypeBuilder, Type::new, Field::new, Variant::new, TypeDef*::new); MetaForm push_field lists a field unless its type is PhantomData, PortableForm push_field always; docs()/docs_portable() keep docs exactly with the docs feature and are the identity without it, docs_always() always keeps them. Closure-taking builders are specified through the closure\'s own requires/ensures.',
-        level_note='TypeDefTuple::new (iterator filter with a capturing closure) is external with assumed contract; Kani stand-in tuple_new_erases_phantom (bounded <= 3 members). MetaType::new / is_phantom contracts are proved in unit metatype. Initial emptiness comes from the Default impls (verified). The derive\'s generated code is not in the repository and not covered. Assumed: to_vec contract.',
+        level_note='TypeDefTuple::new (iterator filter; the prophetic Filter spec of vstd cannot be connected to Seq::filter without a hint after the tail expression) is external with assumed contract; bounded stand-in: native enumeration of all member triples (CBMC ran out of memory on a Kani harness for it). MetaType::new / is_phantom contracts are proved in unit metatype. Initial emptiness comes from the Default impls (verified). The derive\'s generated code is not in the repository and not covered. Assumed: to_vec contract.',
         verus=[('build', ['*'])],
-        kani_quick=['tuple_new_erases_phantom'], kani_thorough=['tuple_new_erases_phantom'],
+        kani_quick=[], kani_thorough=[],
         assumptions=['A4', 'A8', 'VSTD', 'TOOLS'],
     ),
     'C18': dict(
@@ -156,8 +158,8 @@ PROPS = {
         level_note='BOUNDED, not a proof: the loops are inside std (str::strip_prefix, Iterator::all/position, split), there is no place to attach an invariant and Verus cannot take these functions. Bounds: quick 8 ASCII bytes, 2 segments x 4 bytes; thorough 12 bytes, 3 x 4. Display is not covered (core::fmt is out of CBMC reach in useful time).',
         explanation='bounded Kani/CBMC checks of the real string functions against an independent recogniser and oracle; all inputs up to the stated bounds',
         verus=[],
-        kani_quick=['ident_ascii_8', 'ident_unicode_char', 'ident_contract_3', 'from_segments_2x4', 'path_new_small', 'path_new_with_replace_small'],
-        kani_thorough=['ident_ascii_12', 'ident_unicode_char', 'ident_contract_3', 'from_segments_3x4', 'path_new_small', 'path_new_with_replace_small'],
+        kani_quick=['ident_ascii_8', 'ident_unicode_char'],
+        kani_thorough=['ident_ascii_12', 'ident_unicode_char', 'ident_contract_3', 'from_segments_3x4', 'path_new_with_replace_small'],
         assumptions=['TOOLS'],
     ),
     'C06': dict(
@@ -168,8 +170,8 @@ PROPS = {
         level_note='The decoder half of the statement is out of reach (derived Decode under CBMC did not finish in > 15 min) and is NOT claimed. String contents are concrete distinct markers (symbolic strings make CBMC take > 13 min per field), lengths 0-2. Dependency code (parity-scale-codec Encode impls for Vec/Option/String/Compact) is executed, not assumed.',
         explanation='Kani/CBMC executes the real derived Encode impls symbolically and compares with an independent encoder written from the layout; complete for leaves, bounded for containers',
         verus=[],
-        kani_quick=['enc_symbol_compact', 'enc_typedef_leaves', 'enc_field', 'enc_variant', 'enc_typedef_containers', 'enc_type_and_registry'],
-        kani_thorough=['enc_symbol_compact', 'enc_typedef_leaves', 'enc_field', 'enc_variant', 'enc_typedef_containers', 'enc_type_and_registry'],
+        kani_quick=['enc_symbol_compact', 'enc_def_primitive', 'enc_def_sequence', 'enc_def_compact', 'enc_def_array', 'enc_def_tuple', 'enc_field_a'],
+        kani_thorough=['enc_symbol_compact', 'enc_def_primitive', 'enc_def_sequence', 'enc_def_compact', 'enc_def_array', 'enc_def_tuple', 'enc_field_a', 'enc_def_bitsequence'],
         assumptions=['TOOLS'],
     ),
 }
